@@ -20,6 +20,7 @@ ASSUMPTIONS = ["crc16::State::<XMODEM> implements CRC16-XMODEM", "other multi-ke
 TRUSTED = ["crc16 crate"]
 
 MUTANTS = [
+    {"name": "same_slot-skips-second-key", "file": "src/common/utils.rs", "old": "    for k in key_iter {\n        if generate_slot(k) != slot {", "new": "    for k in key_iter.skip(1) {\n        if generate_slot(k) != slot {", "expect": "C09.D4:same_slot:compares-every-key"},
     {"name": "slot-hash-arc", "file": "src/common/utils.rs", "old": "    State::<XMODEM>::calculate(get_hash_tag(key)) as usize % SLOT_NUM", "new": "    State::<ARC>::calculate(get_hash_tag(key)) as usize % SLOT_NUM", "expect": "C09.D1"},
     {"name": "slot-hash-whole-key", "file": "src/common/utils.rs", "old": "    State::<XMODEM>::calculate(get_hash_tag(key)) as usize % SLOT_NUM", "new": "    State::<XMODEM>::calculate(key) as usize % SLOT_NUM", "expect": "C09.D1"},
     {"name": "hash-tag-empty-body", "file": "src/common/utils.rs", "old": "            if end_offset == 0 {\n                return key;\n            }\n", "new": "", "expect": "C09.D2"},
@@ -56,6 +57,8 @@ def run(ctx):
     _guards(ctx)
     _trichotomy(ctx)
     _slot_provenance(ctx)
+    _same_slot_total(ctx)
+    _hash_raw_bytes(ctx)
     slot_table_boundary(ctx, "C09.D7")
 
 
@@ -408,3 +411,62 @@ def slot_table_boundary(ctx, R):
             and {"start", "end"} <= ({b.local_name(l) for l in du.slice_operand(st["rv"]["ops"][0], deep=False).locals} | {b.local_name(l) for l in du.slice_operand(st["rv"]["ops"][1], deep=False).locals})
             and not (du.slice_operand(st["rv"]["ops"][1]).binops & {"Add", "AddWithOverflow"})]
     ctx.check(not excl, R, "fill-includes-end", site(b, excl[0][0], excl[0][1]) if excl else site(b), ok="the fill range includes `end`", bad="the fill iterates start..end without the end slot: the last slot of every range has no owner in the table")
+
+
+def _same_slot_total(ctx):
+    """same_slot is the predicate behind every multi-key guard: it must hash every key and compare all of them with the
+    first - no element of the key iterator may be dropped (skip / take / step_by / nth ...)"""
+    from ..lib import TRUNCATING
+    F = ctx.F
+    b = F.one("common::utils::same_slot")
+    if b is None:
+        ctx.lost("C09.D4", "same_slot", "not found")
+        return
+    fam = F.family(b)
+    ctx.analysed(*fam)
+    bad = []
+    hashes = 0
+    for x in fam:
+        for bb, t in x.calls():
+            d = callee_decl(t) or callee_of(t) or ""
+            last = d.rsplit("::", 1)[-1]
+            if (d.startswith(("std::iter::Iterator::", "core::iter::")) or "itertools" in d.lower()) and last in TRUNCATING + ("skip", "take", "step_by", "rev_skip"):
+                bad.append((last, x, bb))
+            if (callee_of(t) or "").endswith("generate_slot"):
+                hashes += 1
+        for bb, i, st in x.assigns():
+            for o in ([st["rv"].get("a"), st["rv"].get("b")] + list(st["rv"].get("ops", []))):
+                if isinstance(o, dict) and "c" in o and str(o["c"].get("fn", "")).endswith("generate_slot"):
+                    hashes += 1
+        for bb, t in x.calls():
+            for a in t["args"]:
+                if "c" in a and str(a["c"].get("fn", "")).endswith("generate_slot"):
+                    hashes += 1
+    ctx.check(not bad, "C09.D4", "same_slot:compares-every-key", site(bad[0][1], bad[0][2]) if bad else site(b), ok="no key of the iterator is skipped",
+              bad="same_slot uses %s on the key iterator: some key is left out of the comparison, so a command whose keys hash to different slots passes every multi-key guard and is executed partially" % sorted({x[0] for x in bad}))
+    ctx.check(hashes >= 1, "C09.D4", "same_slot:hashes-with-generate_slot", site(b), ok="keys are hashed with generate_slot", bad="same_slot does not hash the keys with generate_slot")
+
+
+TEXT_CONV = ("from_utf8", "from_utf8_lossy", "to_string", "to_str", "as_bytes", "into_bytes", "to_uppercase", "to_lowercase", "to_ascii_uppercase", "to_ascii_lowercase", "trim", "parse")
+
+
+def _hash_raw_bytes(ctx):
+    """`every key, binary keys included`: wherever the proxy hashes a key of a command it hashes the raw element bytes -
+    a detour through str / String (UTF-8 validation, case folding, trimming) changes or rejects binary keys"""
+    F = ctx.F
+    n = 0
+    for b in F.all_bodies(bins=False):
+        if b.is_mock() or b.kind == "Promoted" or "tests::" in b.path or not b.path.startswith(("proxy::executor", "proxy::command", "<proxy::command")):
+            continue
+        cs = [(bb, t) for bb, t in b.calls() if (callee_of(t) or "").endswith("common::utils::generate_slot")]
+        if not cs:
+            continue
+        du = DefUse(b)
+        for bb, t in cs:
+            n += 1
+            ctx.analysed(b)
+            sl = du.slice_operand(t["args"][0])
+            conv = sorted({c.rsplit("::", 1)[-1] for c in list(sl.calls) + list(sl.decls) if c.rsplit("::", 1)[-1] in TEXT_CONV and ("str" in c or "String" in c or "string" in c)})
+            ctx.check(not conv, "C09.D1", "hash-raw-bytes:%s" % b.path.split("::{")[0].rsplit("::", 1)[-1], site(b, bb), ok="generate_slot is given the element bytes",
+                      bad="the key passes through %s before it is hashed: keys that are not valid UTF-8 are rejected or altered, so CLUSTER KEYSLOT / the computed slot disagrees with the slot the command is routed by" % conv)
+    ctx.floor("C09.D1", "generate_slot calls in executor / command", n, 2)
